@@ -150,8 +150,12 @@ Lemma args_of_set_body e b : args_of (set_body e b) = args_of e.
 Proof. destruct e; reflexivity. Qed.
 Lemma is_node_set_body e b : is_node (set_body e b) = is_node e.
 Proof. destruct e; reflexivity. Qed.
-Lemma supports_set_body e b : supports (set_body e b) = supports e.
-Proof. destruct e; reflexivity. Qed.
+(* an expression that holds something supports contents (repaired TexCmd._supports_contents) *)
+Lemma supports_holder h i x : nth_error (body_of h) i = Some x -> supports h = true.
+Proof.
+  destruct h; simpl; intros H; try reflexivity.
+  destruct body; [destruct i; discriminate | apply orb_true_r].
+Qed.
 Lemma set_body_set_body e b1 b2 : set_body (set_body e b1) b2 = set_body e b2.
 Proof. destruct e; reflexivity. Qed.
 Lemma body_of_set_args e a : body_of (set_args_of e a) = body_of e.
@@ -376,10 +380,10 @@ Qed.
 
 Lemma delete_via_found root pp hp i P h x :
   get root pp = Some P -> get root hp = Some h -> nth_error (body_of h) i = Some x ->
-  supports h = true -> find (holds_object hp) (holders pp P) = Some (hp, h) ->
+  find (holds_object hp) (holders pp P) = Some (hp, h) ->
   exists root', splice_at root hp i 1 [] = Some root' /\ delete_via root pp hp i = Done root'.
 Proof.
-  intros GP GH X S F. unfold delete_via. rewrite GP, (get_item _ _ _ _ _ GH X), F.
+  intros GP GH X F. pose proof (supports_holder h i x X) as S. unfold delete_via. rewrite GP, (get_item _ _ _ _ _ GH X), F.
   rewrite (expr_remove_identity _ hp h i x S). simpl.
   destruct (put_o_done root hp h (set_body h (splice i 1 [] (body_of h))) GH) as [r [Hr Ho]].
   exists r. split; [|exact Ho]. unfold splice_at, set_body_at. rewrite GH. exact Hr.
@@ -387,32 +391,33 @@ Qed.
 
 Lemma delete_is_splice root hp i h x :
   get root hp = Some h -> nth_error (body_of h) i = Some x ->
-  supports h = true -> arg_depth_ok hp = true ->
+  arg_depth_ok hp = true ->
   exists root', splice_at root hp i 1 [] = Some root' /\ delete root hp i = Done root'.
 Proof.
-  intros GH X S D. destruct (find_nav root hp h GH D) as [P [GP F]].
-  unfold delete. apply (delete_via_found root _ hp i P h x GP GH X S F).
+  intros GH X D. destruct (find_nav root hp h GH D) as [P [GP F]].
+  unfold delete. apply (delete_via_found root _ hp i P h x GP GH X F).
 Qed.
 
 Lemma remove_is_splice root hp i h x :
   get root hp = Some h -> nth_error (body_of h) i = Some x ->
-  supports h = true -> ends_in_arg hp = false ->
+  ends_in_arg hp = false ->
   exists root', splice_at root hp i 1 [] = Some root' /\ remove root hp i = Done root'.
 Proof.
-  intros GH X S E. unfold remove, remove_via. rewrite (nav_parent_noarg hp E).
+  intros GH X E. pose proof (supports_holder h i x X) as S. unfold remove, remove_via. rewrite (nav_parent_noarg hp E).
   rewrite GH, (get_item _ _ _ _ _ GH X), (expr_remove_identity _ hp h i x S). simpl.
   destruct (put_o_done root hp h (set_body h (splice i 1 [] (body_of h))) GH) as [r [Hr Ho]].
   exists r. split; [|exact Ho]. unfold splice_at, set_body_at. rewrite GH. exact Hr.
 Qed.
 
 Lemma replace_in_identity root hp h i x new :
-  get root hp = Some h -> nth_error (body_of h) i = Some x -> supports h = true ->
+  get root hp = Some h -> nth_error (body_of h) i = Some x -> supports (set_body h (splice i 1 [] (body_of h))) = true ->
   exists root', splice_at root hp i 1 new = Some root' /\
                 replace_in root hp h hp i x new = Done root'.
 Proof.
-  intros GH X S. pose proof (child_is_node h (SBody i) x X) as N.
+  intros GH X S2. pose proof (supports_holder h i x X) as S.
+  pose proof (child_is_node h (SBody i) x X) as N.
   unfold replace_in. rewrite (expr_remove_identity _ hp h i x S). simpl.
-  unfold expr_insert. rewrite supports_set_body, S. simpl.
+  unfold expr_insert. rewrite S2. simpl.
   rewrite (body_of_set_body h _ N), set_body_set_body.
   rewrite (splice_insert new _ i (splice_length_remove _ _ _ X)), (splice_replace new _ i x X).
   destruct (put_o_done root hp h (set_body h (splice i 1 new (body_of h))) GH) as [r [Hr Ho]].
@@ -421,7 +426,8 @@ Qed.
 
 Lemma replace_via_found root pp hp i P h x new :
   get root pp = Some P -> get root hp = Some h -> nth_error (body_of h) i = Some x ->
-  supports h = true -> find (holds_object hp) (holders pp P) = Some (hp, h) ->
+  supports (set_body h (splice i 1 [] (body_of h))) = true ->
+  find (holds_object hp) (holders pp P) = Some (hp, h) ->
   exists root', splice_at root hp i 1 new = Some root' /\
                 replace_via root pp hp i new = Done root'.
 Proof.
@@ -431,7 +437,7 @@ Qed.
 
 Lemma replace_with_is_splice root hp i h x new :
   get root hp = Some h -> nth_error (body_of h) i = Some x ->
-  supports h = true -> arg_depth_ok hp = true ->
+  supports (set_body h (splice i 1 [] (body_of h))) = true -> arg_depth_ok hp = true ->
   exists root', splice_at root hp i 1 new = Some root' /\ replace_with root hp i new = Done root'.
 Proof.
   intros GH X S D. destruct (find_nav root hp h GH D) as [P [GP F]].
@@ -442,7 +448,8 @@ Qed.
    parent's own list or in one of its argument groups *)
 Lemma replace_is_splice root pp hp i P h x new :
   get root pp = Some P -> (hp = pp \/ exists j, hp = pp ++ [SArg j]) ->
-  get root hp = Some h -> nth_error (body_of h) i = Some x -> supports h = true ->
+  get root hp = Some h -> nth_error (body_of h) i = Some x ->
+  supports (set_body h (splice i 1 [] (body_of h))) = true ->
   exists root', splice_at root hp i 1 new = Some root' /\
                 replace_via root pp hp i new = Done root'.
 Proof.
@@ -570,6 +577,37 @@ Proof.
   - apply serialise_body. exact G.
   - destruct (serialise_set_body root np h [text_of s] G N) as [r' [Hs' He]].
     rewrite Hs in Hs'. inversion Hs'; subst r'. rewrite He, estr_text_of. reflexivity.
+Qed.
+
+(* an environment without arguments: its `contents` view is its raw list without the
+   whitespace-only texts *)
+Lemma cview_own_gen (b : list expr) : forall k,
+  map snd (filter (fun it : (path * nat) * expr => negb (is_ws_item (snd it)))
+                  (map (fun ix : nat * expr => (([], fst ix), snd ix)) (number_from k b)))
+  = filter (fun c => negb (is_ws_item c)) b.
+Proof.
+  induction b as [|c b IH]; intros k; simpl; [reflexivity|].
+  destruct (negb (is_ws_item c)); simpl; rewrite IH; reflexivity.
+Qed.
+
+Lemma cview_noargs h :
+  is_env h = true -> args_of h = [] ->
+  map snd (cview h) = filter (fun c => negb (is_ws_item c)) (body_of h).
+Proof.
+  intros E A. destruct h; try discriminate; simpl in A; subst; simpl; apply cview_own_gen.
+Qed.
+
+Lemma set_string_env_noargs_local root np h x s :
+  get root np = Some h -> is_env h = true -> args_of h = [] ->
+  filter (fun c => negb (is_ws_item c)) (body_of h) = [x] -> is_node x = false ->
+  exists root', set_string root np s = Done root' /\
+    estr root  = span_pre root np ++ estr_list (body_of h) ++ span_post root np /\
+    estr root' = span_pre root np ++ s ++ span_post root np.
+Proof.
+  intros G E A F X. pose proof (cview_noargs h E A) as V. rewrite F in V.
+  destruct (cview h) as [|[q x'] [|y l]] eqn:CV; try discriminate.
+  simpl in V. inversion V; subst x'.
+  apply (set_string_env_local root np h q x s G E CV X).
 Qed.
 
 Lemma estr_set_args_of e a :
@@ -712,7 +750,7 @@ Qed.
 (* textually identical twins: deleting the second leaves the first where it was, deleting
    the first leaves the second (one place further left) *)
 Lemma C05_twins root hp h i j x y :
-  get root hp = Some h -> supports h = true -> arg_depth_ok hp = true ->
+  get root hp = Some h -> arg_depth_ok hp = true ->
   nth_error (body_of h) i = Some x -> nth_error (body_of h) j = Some y ->
   estr x = estr y -> (i < j)%nat ->
   (exists root', delete root hp j = Done root' /\
@@ -724,19 +762,19 @@ Lemma C05_twins root hp h i j x y :
      estr root' = span_pre root hp ++ estr_list (firstn i (body_of h))
                     ++ estr_list (skipn (S i) (body_of h)) ++ span_post root hp).
 Proof.
-  intros G Sup D Xi Xj _ Hij.
+  intros G D Xi Xj _ Hij.
   pose proof (child_is_node h (SBody j) y Xj) as N.
   pose proof (nth_error_lt _ _ _ Xj) as Lj.
   destruct (serialise_update root hp h G N) as [_ U].
   split.
-  - destruct (delete_is_splice root hp j h y G Xj Sup D) as [r [Hs Hd]].
+  - destruct (delete_is_splice root hp j h y G Xj D) as [r [Hs Hd]].
     exists r. split; [exact Hd|]. split.
     + destruct (untargeted_unchanged root hp h j 1 [] r G N (Nat.lt_le_incl _ _ Lj) Hs)
         as [_ [Hb _]].
       rewrite (Hb i [] Hij). apply (get_item _ _ _ _ _ G Xi).
     + destruct (U j 1%nat []) as [r' [Hs' He]]. rewrite Hs in Hs'. inversion Hs'; subst r'.
       rewrite He. simpl. replace (j + 1)%nat with (S j) by lia. reflexivity.
-  - destruct (delete_is_splice root hp i h x G Xi Sup D) as [r [Hs Hd]].
+  - destruct (delete_is_splice root hp i h x G Xi D) as [r [Hs Hd]].
     exists r. split; [exact Hd|]. split.
     + assert (Li : (i <= length (body_of h))%nat) by lia.
       destruct (untargeted_unchanged root hp h i 1 [] r G N Li Hs) as [_ [_ [Ha _]]].
@@ -862,10 +900,10 @@ Proof. intros H. inversion H. reflexivity. Qed.
 Lemma holder_ok_inv t hp i :
   holder_ok t hp i = true ->
   exists h x, get t hp = Some h /\ nth_error (body_of h) i = Some x /\
-              supports h = true /\ arg_depth_ok hp = true.
+              arg_depth_ok hp = true.
 Proof.
   unfold holder_ok. destruct (get t hp) as [h|]; [|discriminate]. intros H.
-  apply andb_true_iff in H as [H D]. apply andb_true_iff in H as [L Sp].
+  apply andb_true_iff in H as [L D].
   apply Nat.ltb_lt in L. destruct (nth_error (body_of h) i) as [x|] eqn:X.
   - exists h, x. repeat split; assumption.
   - apply nth_error_None in X. lia.
@@ -877,16 +915,17 @@ Lemma apply_op_refines t o t' :
 Proof.
   intros OK A. destruct o as [hp i|hp i|hp i new|np i new|np new|np s|np s|np s|np idxs];
     cbn [op_ok apply_op op_abs] in *.
-  - destruct (holder_ok_inv _ _ _ OK) as [h [x [G [X [Sp D]]]]].
-    destruct (delete_is_splice t hp i h x G X Sp D) as [r [Hs Hd]].
+  - destruct (holder_ok_inv _ _ _ OK) as [h [x [G [X D]]]].
+    destruct (delete_is_splice t hp i h x G X D) as [r [Hs Hd]].
     rewrite Hd in A. apply done_inj in A. subst r.
     apply (abs_splice_at t hp h i 1 [] t' G Hs).
   - apply andb_true_iff in OK as [OK E]. apply negb_true_iff in E.
-    destruct (holder_ok_inv _ _ _ OK) as [h [x [G [X [Sp D]]]]].
-    destruct (remove_is_splice t hp i h x G X Sp E) as [r [Hs Hd]].
+    destruct (holder_ok_inv _ _ _ OK) as [h [x [G [X D]]]].
+    destruct (remove_is_splice t hp i h x G X E) as [r [Hs Hd]].
     rewrite Hd in A. apply done_inj in A. subst r.
     apply (abs_splice_at t hp h i 1 [] t' G Hs).
-  - destruct (holder_ok_inv _ _ _ OK) as [h [x [G [X [Sp D]]]]].
+  - apply andb_true_iff in OK as [OK Sp].
+    destruct (holder_ok_inv _ _ _ OK) as [h [x [G [X D]]]]. rewrite G in Sp.
     destruct (replace_with_is_splice t hp i h x new G X Sp D) as [r [Hs Hd]].
     rewrite Hd in A. apply done_inj in A. subst r.
     apply (abs_splice_at t hp h i 1 new t' G Hs).
@@ -943,7 +982,7 @@ Lemma run_ops_refines : forall ops t t',
 Proof.
   induction ops as [|o ops IH]; intros t t' OK R; simpl in *.
   - apply done_inj in R. subst. reflexivity.
-  - destruct OK as [OK1 OKr]. destruct (apply_op t o) as [t1|] eqn:A; [|discriminate]. simpl in R.
+  - destruct OK as [OK1 OKr]. destruct (apply_op t o) as [t1|e|e t1] eqn:A; [|discriminate|discriminate]. simpl in R.
     rewrite (apply_op_refines t o t1 OK1 A). apply (IH t1 t' (OKr t1 eq_refl) R).
 Qed.
 
@@ -959,12 +998,13 @@ Lemma apply_op_total t o : op_ok t o = true -> exists t', apply_op t o = Done t'
 Proof.
   intros OK. destruct o as [hp i|hp i|hp i new|np i new|np new|np s|np s|np s|np idxs];
     cbn [op_ok apply_op] in *.
-  - destruct (holder_ok_inv _ _ _ OK) as [h [x [G [X [Sp D]]]]].
-    destruct (delete_is_splice t hp i h x G X Sp D) as [r [_ Hd]]. exists r. exact Hd.
+  - destruct (holder_ok_inv _ _ _ OK) as [h [x [G [X D]]]].
+    destruct (delete_is_splice t hp i h x G X D) as [r [_ Hd]]. exists r. exact Hd.
   - apply andb_true_iff in OK as [OK E]. apply negb_true_iff in E.
-    destruct (holder_ok_inv _ _ _ OK) as [h [x [G [X [Sp D]]]]].
-    destruct (remove_is_splice t hp i h x G X Sp E) as [r [_ Hd]]. exists r. exact Hd.
-  - destruct (holder_ok_inv _ _ _ OK) as [h [x [G [X [Sp D]]]]].
+    destruct (holder_ok_inv _ _ _ OK) as [h [x [G [X D]]]].
+    destruct (remove_is_splice t hp i h x G X E) as [r [_ Hd]]. exists r. exact Hd.
+  - apply andb_true_iff in OK as [OK Sp].
+    destruct (holder_ok_inv _ _ _ OK) as [h [x [G [X D]]]]. rewrite G in Sp.
     destruct (replace_with_is_splice t hp i h x new G X Sp D) as [r [_ Hd]]. exists r. exact Hd.
   - destruct (get t np) as [h|] eqn:G; [|discriminate].
     apply andb_true_iff in OK as [OK L]. apply andb_true_iff in OK as [N Sp].
@@ -1051,7 +1091,7 @@ Definition s_cmd_string : str := [92; 98; 101; 103; 105; 110; 123; 101; 125; 32;
 Definition parsed (s : str) : expr :=
   match parse s true [] with Ok r => r | Err _ => ERoot [] end.
 Definition done_str (o : outcome expr) : option str :=
-  match o with Done r => Some (estr r) | Raise _ => None end.
+  match o with Done r => Some (estr r) | _ => None end.
 
 (* C05_twins on the real parse of  \a{x} mid \a{x} end : the twins are items 0 and 2 of the
    root; deleting the second keeps the first, deleting the first keeps the second *)
@@ -1142,22 +1182,51 @@ Example history_example :
 Proof. vm_compute. split; [reflexivity|]. eexists. split; reflexivity. Qed.
 
 (* --------------------------------------------------------------------- refuted *)
-(* C15 as written allows renaming in a history.  Renaming an \item makes it a command
-   "without children": its contents stay in the tree and in str(), but no edit reaches
-   them any more -- deleting its child raises TypeError where the reference model
-   deletes.  (Real code: same, see corr_edit.SCRIPTED.) *)
-Lemma C15_rename_item_refuted :
-  exists (t t1 : expr) (hp : path) (i : nat) (x : expr),
+(* \begin{itemize}\item\c\end{itemize} *)
+Definition doc_item1 : str := [92; 98; 101; 103; 105; 110; 123; 105; 116; 101; 109; 105; 122; 101; 125; 92; 105; 116; 101; 109; 92; 99; 92; 101; 110; 100; 123; 105; 116; 101; 109; 105; 122; 101; 125]%N.
+(* \begin{itemize}\foo a \end{itemize} *)
+Definition s_item_renamed_deleted : str := [92; 98; 101; 103; 105; 110; 123; 105; 116; 101; 109; 105; 122; 101; 125; 92; 102; 111; 111; 32; 97; 32; 92; 101; 110; 100; 123; 105; 116; 101; 109; 105; 122; 101; 125]%N.
+(* \begin{itemize}\foo\end{itemize} *)
+Definition s_item1_lost : str := [92; 98; 101; 103; 105; 110; 123; 105; 116; 101; 109; 105; 122; 101; 125; 92; 102; 111; 111; 92; 101; 110; 100; 123; 105; 116; 101; 109; 105; 122; 101; 125]%N.
+(* \begin{itemize}\fooS\end{itemize} *)
+Definition s_item1_wanted : str := [92; 98; 101; 103; 105; 110; 123; 105; 116; 101; 109; 105; 122; 101; 125; 92; 102; 111; 111; 83; 92; 101; 110; 100; 123; 105; 116; 101; 109; 105; 122; 101; 125]%N.
+
+(* With the repaired _supports_contents (name == 'item' or non-empty contents) a renamed
+   \item keeps accepting edits of the contents it holds: rename, then delete a child, is a
+   well-targeted history and agrees with the reference model.  (Before the repair the
+   delete raised TypeError.) *)
+Example C15_rename_item_then_delete :
+  let t := parsed doc_item in
+  let o1 := ORename [SBody 0; SBody 0] s_foo in
+  let o2 := ODelete [SBody 0; SBody 0] 1 in
+  ops_okb t [o1; o2] = true /\
+  exists t1 t2 x,
+    apply_op t o1 = Done t1 /\
+    get t1 [SBody 0; SBody 0; SBody 1] = Some x /\ is_node x = true /\
+    apply_op t1 o2 = Done t2 /\
+    estr t2 = s_item_renamed_deleted /\
+    ref_str (ref_step (abs t1) (op_abs o2)) = estr t2.
+Proof.
+  vm_compute. split; [reflexivity|]. eexists; eexists; eexists. repeat split; reflexivity.
+Qed.
+
+(* What remains false of "any sequence of edits": replace is holder.insert(holder.remove(x),
+   ...).  When x is the only content of a command that is not \item (a renamed \item), the
+   removal empties the command, insert's support check then raises TypeError -- after the
+   child has been removed: the child is lost, the new material is not inserted, and the
+   reference model (which replaces) differs. *)
+Lemma C15_replace_only_child_of_renamed_item_refuted :
+  exists (t t1 t2 : expr) (x : expr),
     apply_op t (ORename [SBody 0; SBody 0] s_foo) = Done t1 /\
     op_ok t (ORename [SBody 0; SBody 0] s_foo) = true /\
-    op_ok t (ODelete hp i) = true /\
-    get t1 (hp ++ [SBody i]) = Some x /\ is_node x = true /\
-    apply_op t1 (ODelete hp i) = Raise ETypeError /\
-    ref_str (ref_step (abs t1) (op_abs (ODelete hp i))) <> estr t1.
+    get t1 [SBody 0; SBody 0; SBody 0] = Some x /\ is_node x = true /\
+    apply_op t1 (OReplaceWith [SBody 0; SBody 0] 0 [EStr s_S]) = Partial ETypeError t2 /\
+    estr t2 = s_item1_lost /\
+    ref_str (ref_step (abs t1) (op_abs (OReplaceWith [SBody 0; SBody 0] 0 [EStr s_S])))
+      = s_item1_wanted.
 Proof.
-  exists (parsed doc_item).
-  eexists. exists [SBody 0; SBody 0], 1%nat. eexists.
-  vm_compute. repeat split; try reflexivity. discriminate.
+  exists (parsed doc_item1). eexists; eexists; eexists.
+  vm_compute. repeat split; reflexivity.
 Qed.
 
 (* C14: "assigning the string of a text-only environment changes exactly that part".
@@ -1209,35 +1278,35 @@ Qed.
 
 Lemma C05_delete_local root hp i h x :
   get root hp = Some h -> nth_error (body_of h) i = Some x ->
-  supports h = true -> arg_depth_ok hp = true ->
+  arg_depth_ok hp = true ->
   exists root', delete root hp i = Done root' /\ splice_at root hp i 1 [] = Some root' /\
     estr root  = span_pre root hp ++ estr_list (firstn i (body_of h)) ++ estr x
                    ++ estr_list (skipn (S i) (body_of h)) ++ span_post root hp /\
     estr root' = span_pre root hp ++ estr_list (firstn i (body_of h))
                    ++ estr_list (skipn (S i) (body_of h)) ++ span_post root hp.
 Proof.
-  intros G X Sp D. destruct (delete_is_splice root hp i h x G X Sp D) as [r [Hs Hd]].
+  intros G X D. destruct (delete_is_splice root hp i h x G X D) as [r [Hs Hd]].
   exists r. split; [exact Hd|]. split; [exact Hs|].
   exact (splice_one_text root hp h i x [] r G X Hs).
 Qed.
 
 Lemma C05_remove_local root hp i h x :
   get root hp = Some h -> nth_error (body_of h) i = Some x ->
-  supports h = true -> ends_in_arg hp = false ->
+  ends_in_arg hp = false ->
   exists root', remove root hp i = Done root' /\ splice_at root hp i 1 [] = Some root' /\
     estr root  = span_pre root hp ++ estr_list (firstn i (body_of h)) ++ estr x
                    ++ estr_list (skipn (S i) (body_of h)) ++ span_post root hp /\
     estr root' = span_pre root hp ++ estr_list (firstn i (body_of h))
                    ++ estr_list (skipn (S i) (body_of h)) ++ span_post root hp.
 Proof.
-  intros G X Sp E. destruct (remove_is_splice root hp i h x G X Sp E) as [r [Hs Hd]].
+  intros G X E. destruct (remove_is_splice root hp i h x G X E) as [r [Hs Hd]].
   exists r. split; [exact Hd|]. split; [exact Hs|].
   exact (splice_one_text root hp h i x [] r G X Hs).
 Qed.
 
 Lemma C05_replace_with_local root hp i h x new :
   get root hp = Some h -> nth_error (body_of h) i = Some x ->
-  supports h = true -> arg_depth_ok hp = true ->
+  supports (set_body h (splice i 1 [] (body_of h))) = true -> arg_depth_ok hp = true ->
   exists root', replace_with root hp i new = Done root' /\
     splice_at root hp i 1 new = Some root' /\
     estr root  = span_pre root hp ++ estr_list (firstn i (body_of h)) ++ estr x
@@ -1252,7 +1321,8 @@ Qed.
 
 Lemma C05_replace_local root pp hp i P h x new :
   get root pp = Some P -> (hp = pp \/ exists j, hp = pp ++ [SArg j]) ->
-  get root hp = Some h -> nth_error (body_of h) i = Some x -> supports h = true ->
+  get root hp = Some h -> nth_error (body_of h) i = Some x ->
+  supports (set_body h (splice i 1 [] (body_of h))) = true ->
   exists root', replace_via root pp hp i new = Done root' /\
     splice_at root hp i 1 new = Some root' /\
     estr root  = span_pre root hp ++ estr_list (firstn i (body_of h)) ++ estr x
@@ -1308,3 +1378,20 @@ Proof.
   vm_compute. eexists; eexists.
   repeat split; try reflexivity; try discriminate; apply Nat.le_0_l.
 Qed.
+
+(* hypotheses of set_string_env_noargs_local, on  \begin{e} ab \end{e}\g{h} *)
+Example set_string_env_noargs_example :
+  let root := parsed doc_env in
+  exists h x, get root [SBody 0] = Some h /\ is_env h = true /\ args_of h = [] /\
+              filter (fun c => negb (is_ws_item c)) (body_of h) = [x] /\ is_node x = false.
+Proof. vm_compute. eexists; eexists. repeat split; reflexivity. Qed.
+
+(* hypothesis of replace_with: the holder still accepts contents without the child (always
+   so unless the holder is a command that is not \item with this single content) *)
+Example replace_hypothesis_example :
+  let root := parsed doc_arg in
+  exists h x, get root [SBody 0; SArg 0] = Some h /\ nth_error (body_of h) 0 = Some x /\
+              supports (set_body h (splice 0 1 [] (body_of h))) = true /\
+              done_str (replace_with root [SBody 0; SArg 0] 0 [EStr s_S])
+              = Some [92; 97; 123; 83; 125; 92; 99]%N.
+Proof. vm_compute. eexists; eexists. repeat split; reflexivity. Qed.
